@@ -105,7 +105,7 @@ func (self *Analyzer) triggerStatement(node pAst.TriggerStatement) ast.AnalyzedT
 			TriggerIdent:      node.TriggerIdent,
 			TriggerSignature:  ast.FunctionType{},
 			TriggerArguments:  ast.AnalyzedCallArgs{},
-			Range:             errors.Span{},
+			Range:             node.Range,
 		}
 	}
 
